@@ -216,7 +216,7 @@ def mutants(rng, text, per_script):
 def run(ctx):
     ctx.rule = ("valid scripts (plain, templates, register arguments, loops, arrays, options) and, for each, "
                 "single-token deletions / insertions / substitutions / adjacent swaps / truncations at random "
-                "positions (40 per script quick, every position thorough), token soups over the vocabulary "
+                "positions (40 per script quick, every position thorough), the same scripts and mutants behind leading indentation or blank lines, token soups over the vocabulary "
                 "including the eleven 'invalid symbol' characters, and character soups; for every text the token "
                 "stream of the shipped lexer is classified by an Earley recogniser over src/blackbird.g4 "
                 "(grammatical? first token at which no sentence can continue); oracle on the implementation: "
@@ -244,6 +244,14 @@ def run(ctx):
         t = gen.render(s, lay)
         texts.append(("valid", t))
         texts += mutants(ctx.rng, t, per)
+        if i < ctx.n(25, 200):
+            # what comes before `name` matters: an indentation there is ungrammatical, blank lines there shift
+            # every later position
+            ms = mutants(ctx.rng, t, 2)
+            for lead in ("    ", "\t", "\n\n", " \n", "\n    "):
+                texts.append(("leading-whitespace", lead + t))
+                for _k, m in ms[:1]:
+                    texts.append(("leading-whitespace", lead + m))
     for _ in range(ctx.n(300, 3000)):
         texts.append(("token-soup", join_tokens([ctx.rng.choice(VOCAB) for _ in range(ctx.rng.randrange(1, 12))])))
     for _ in range(ctx.n(200, 2000)):
